@@ -40,6 +40,8 @@ type Conf struct {
 	DisableRateLimit    bool     `json:"disable_rate_limit"`
 	DisableSeencheck    bool     `json:"disable_seencheck"`
 	InputSeeds          []string `json:"input_seeds"`
+	// MinSpaceRequired: --min-space-required in GiB (0 = the harness default of 0.001, so that a sandbox disk never pauses a run)
+	MinSpaceRequired float64 `json:"min_space_required,omitempty"`
 }
 
 func (c Conf) String() string {
@@ -89,6 +91,9 @@ func (c Conf) Build() *config.Config {
 	}
 	if cfg.WARCDiscardStatus == nil {
 		cfg.WARCDiscardStatus = []int{429}
+	}
+	if c.MinSpaceRequired > 0 {
+		cfg.MinSpaceRequired = c.MinSpaceRequired
 	}
 	return cfg
 }
@@ -145,6 +150,11 @@ type ChildSpec struct {
 	Triggers       []Trigger `json:"triggers"`
 	// FallbackStop (signals mode): when no stopping trigger has fired FallbackMS after all work was done, SIGTERM anyway.
 	FallbackMS int `json:"fallback_ms"`
+	// KillAtPwrite > 0: the child runs under strace, which delivers SIGKILL at the n-th pwrite64 system call of the
+	// process (SQLite writes its pages and its rollback journal that way): a kill between two page writes of a commit.
+	// PwriteLog: the child runs under strace, which logs every pwrite64 call to that file (to count them).
+	KillAtPwrite int    `json:"kill_at_pwrite,omitempty"`
+	PwriteLog    string `json:"pwrite_log,omitempty"`
 }
 
 // Points used by the engine itself.
